@@ -557,6 +557,8 @@ def _inline_in_function(prog, fi, is_new, stats):
         ast.fix_missing_locations(asg)
         return asg
 
+    brought = {}
+
     def rewrite_block(stmts):
         nonlocal done
         i = 0
@@ -570,16 +572,16 @@ def _inline_in_function(prog, fi, is_new, stats):
             if isinstance(s, ast.Expr) and isinstance(s.value, ast.Call):
                 g = targets_of(s.value)
                 if g is not None:
-                    repl = _instantiate(g, s.value, caller_names, None)
+                    repl = _instantiate(g, s.value, caller_names | brought.get(g.qual, set()), None)
             elif isinstance(s, ast.Assign) and len(s.targets) == 1 and isinstance(s.value, ast.Call):
                 g = targets_of(s.value)
                 if g is not None:
-                    repl = _instantiate(g, s.value, caller_names, s.targets[0])
+                    repl = _instantiate(g, s.value, caller_names | brought.get(g.qual, set()), s.targets[0])
             elif isinstance(s, ast.Return) and isinstance(s.value, ast.Call):
                 g = targets_of(s.value)
                 if g is not None and _single_return_expr(g) is None:
                     tmp = "_ret_" + g.node.name.strip("_")
-                    r = _instantiate(g, s.value, caller_names, ast.Name(id=tmp, ctx=ast.Store()))
+                    r = _instantiate(g, s.value, caller_names | brought.get(g.qual, set()), ast.Name(id=tmp, ctx=ast.Store()))
                     if r is not None:
                         ret = ast.Return(value=ast.Name(id=tmp, ctx=ast.Load()))
                         ast.copy_location(ret, s)
@@ -587,11 +589,12 @@ def _inline_in_function(prog, fi, is_new, stats):
                         repl = r + [ret]
             if repl is not None:
                 stmts[i : i + 1] = repl
-                # the names this instance brought in are taken: a second instance of the same helper gets its own
+                # the names this instance brought in are taken for the NEXT instance of the same helper (two instances of one
+                # helper must not share their locals; different helpers may well use the caller's original names)
                 for st_ in repl:
                     for x_ in ast.walk(st_):
                         if isinstance(x_, ast.Name) and isinstance(x_.ctx, (ast.Store, ast.Del)):
-                            caller_names.add(x_.id)
+                            brought.setdefault(g.qual, set()).add(x_.id)
                 stats.setdefault(fi.qual, []).append(g.qual)
                 stats.setdefault("#inlined", set()).add(g.qual)
                 done += 1
@@ -3603,8 +3606,6 @@ def normalise(prog, ref):
                     set_parents(fi.node)
                 if _unfold_update_generators(fi, ref_fps, stats):
                     set_parents(fi.node)
-                if _dict_key_loops_to_items(fi, ref_fps, stats):
-                    set_parents(fi.node)
                 if _merge_dataclass_replace(fi, ref_locals, stats):
                     set_parents(fi.node)
                 for _round in range(3):
@@ -3687,6 +3688,9 @@ def normalise(prog, ref):
                         k += 1
                     if not k:
                         break
+                # (after the temporaries are gone: a look-up local that survives is one the reference has as well)
+                if _dict_key_loops_to_items(fi, ref_fps, stats):
+                    set_parents(fi.node)
             except RecursionError:
                 pass
             set_parents(fi.node)
